@@ -133,5 +133,66 @@ theorem FStep_instr_step (hp : Premise Γ P) {l : Loc} {σ σ' : State} (hs : St
     simp only [Config.mk.injEq] at hc'
     omega
 
+theorem guardTrue_of_holds {σ : State} {g : Option Expr} (ht : TypedGuard σ g) (h : guardHolds σ g) :
+    guardTrue σ g := by
+  cases g with
+  | none => trivial
+  | some g =>
+    obtain ⟨c, hc, h1⟩ := h
+    exact ⟨c, by rw [← evalIn_eq_value ht.1]; exact hc, h1⟩
+
+/-- the two function-level steps at the end of a block (last instruction, then an enabled edge) are one
+    step of the executor, to that edge's location -/
+theorem FStep_last_step (hp : Premise Γ P) {l : Loc} {σ σ' : State} (hs : StateTyped Γ σ)
+    {f : Function} {b : Block} {k : Nat} {i : Instr} (hat : AtInstr P l f b k i) (hlen : k + 1 = b.instrs.length)
+    {c c' c'' : Config} (hf : FStep f c c') (hf' : FStep f c' c'')
+    (hc : c = ⟨b.index, k, σ⟩) (hc' : c' = ⟨b.index, k + 1, σ'⟩) :
+    ∃ e, e ∈ f.cfg.edgesOut b.index ∧ c'' = ⟨e.tail, 0, σ'⟩ ∧ step P (l, σ) = .ok (edgeLoc f e, σ') := by
+  obtain ⟨fi, h1, h2⟩ := hat.fn
+  have hty := hp.op hs h2 hat.blk (List.mem_of_getElem? hat.ins)
+  cases hf with
+  | @edge b' e _ hb hpos he hg =>
+    simp only [Config.mk.injEq] at hc'
+    omega
+  | @instr b' i' _ σ'' hb hi hex =>
+    subst hc
+    simp only [Config.mk.injEq, true_and] at hc'
+    subst hc'
+    simp only at hb hi hex
+    rw [hat.blk] at hb; cases hb
+    rw [hat.ins] at hi; cases hi
+    have hos := (opSem_iff _ _ _ _).1 ((execute_eq_opSem _ _ hty.1 _).1 hex)
+    have hs' : StateTyped Γ σ'' := stateTyped_opSem hs hty.2 hos
+    cases hf' with
+    | @instr b'' i'' _ σ3 hb2 hi2 hex2 =>
+      simp only at hb2 hi2
+      rw [hat.blk] at hb2; cases hb2
+      have : b.instrs[k + 1]? = none := List.getElem?_eq_none_iff.2 (by omega)
+      rw [this] at hi2; cases hi2
+    | @edge b'' e _ hb2 hpos2 he2 hg2 =>
+      simp only at hb2 hpos2 he2 hg2
+      have hgs := hp.guardsAt hs' h2 hat.blk
+      have hgt := guardTrue_of_holds (hgs.2 e he2) hg2
+      exact ⟨e, he2, rfl, step_complete hp hs (.last hat hos hlen he2 hgt)⟩
+
+/-- the function-level edge step out of an empty block is the executor's step from the `EmptyBlock` location -/
+theorem FStep_empty_step (hp : Premise Γ P) {l : Loc} {σ : State} (hs : StateTyped Γ σ) {fi bi : Nat}
+    {f : Function} {b : Block} (h1 : l.fn = some fi) (h2 : P.function fi = some f) (h3 : l.pos = .empty bi)
+    (h4 : f.block bi = some b) (hempty : b.instrs = []) {c c' : Config} (hf : FStep f c c')
+    (hc : c = ⟨b.index, 0, σ⟩) :
+    ∃ e, e ∈ f.cfg.edgesOut b.index ∧ c' = ⟨e.tail, 0, σ⟩ ∧ step P (l, σ) = .ok (edgeLoc f e, σ) := by
+  have hbi := (block_mem h4).2
+  subst hc
+  cases hf with
+  | @instr b' i' _ σ'' hb hi hex =>
+    simp only at hb hi
+    rw [hbi, h4] at hb; cases hb
+    rw [hempty] at hi; cases hi
+  | @edge b' e _ hb hpos he hg =>
+    simp only at hb hpos he hg
+    have hgs := hp.guardsAt hs h2 h4
+    have hgt := guardTrue_of_holds (hgs.2 e he) hg
+    exact ⟨e, he, rfl, step_complete hp hs (.empty h1 h2 h3 h4 hempty he hgt)⟩
+
 end C07
 end Falcon
